@@ -4,7 +4,8 @@
         channel holds 4 streams, the bidirectional one 1) and compared with what the application
         saw through the public API.
    691: operation sequences on the real result cell against [Term.cstep]. *)
-From WT.Model Require Import Base Varint Ids Frame Runner Handoff Trace Term Filter Closing.
+From WT.Model Require Import Base Varint Ids Frame Wire Qpack Session Runner Handoff Trace Term Filter Closing.
+
 From WT.Corr Require Import CorrBase.
 
 (* ---- 681 ---- *)
@@ -174,6 +175,34 @@ Definition model_602 (a : list (list N)) : list (list N) :=
   [[1]] ++ of_out (snd (accept other s)) ++ err ++ of_out (snd (accept other s)) ++ err
         ++ [[count_items drained]] ++ of_out (last drained APending).
 
+(* ---- 673: the server application's view of the request and the mirrored decision ---- *)
+Fixpoint pairs_of (l : list (list N)) : hmap :=
+  match l with k :: v :: r => (k, v) :: pairs_of r | _ => [] end.
+Fixpoint all_in (obs model : hmap) : bool :=
+  match obs with [] => true | (k, v) :: r => (match hget k model with Some v' => list_eqb v v' | None => false end) && all_in r model end.
+
+Definition chk_673 (a o : list (list N)) : bool :=
+  match o with
+  | [1; outcome; csid; sok; ssid; port] :: authority :: path :: fields =>
+      let decision := argn 0 0 a in
+      let nreq := N.to_nat (argn 0 1 a) in
+      let extras := pairs_of (firstn (2 * nreq) (skipn 2 a)) in
+      (* what SessionRequest::new + insert build on the client = what the server application must see *)
+      let want_auth := [49; 50; 55; 46; 48; 46; 48; 46; 49; 58] ++ show_dec port in   (* "127.0.0.1:" *)
+      match fold_left (fun m kv => match m with Some m' => request_insert (fst kv) (snd kv) m' | None => None end)
+                      extras (Some (request_new want_auth (arg 1 a))) with
+      | None => false
+      | Some req =>
+          let obs := pairs_of fields in
+          list_eqb authority want_auth && list_eqb path (arg 1 a) &&
+          (length obs =? length req)%nat && all_in obs req &&
+          (* the decision is mirrored: 2xx <-> session, both ends name the request stream *)
+          (if decision <=? 1 then list_eqb [outcome; csid; sok; ssid] [0; 0; 1; 0]
+           else list_eqb [outcome; csid; sok; ssid] [1; 9; 0; 9])
+      end
+  | _ => false
+  end.
+
 Definition model (f : N) (a : list (list N)) : list (list N) :=
   match f with
   | 602 => model_602 a
@@ -184,5 +213,6 @@ Definition model (f : N) (a : list (list N)) : list (list N) :=
 Definition chk (c : case) : bool :=
   let '(f, a, o) := c in
   if f =? 681 then chk_681 o
+  else if f =? 673 then chk_673 a o
   else if f =? 602 then (match o with [2] :: _ => true | _ => lists_eqb (model_602 a) o end)
   else lists_eqb (model f a) o.
